@@ -217,10 +217,18 @@ impl Resolver {
         // O_CREAT cannot be emulated by the O_PATH resolver (and in the
         // fallback case the flag gets silently ignored unless you also set
         // O_EXCL) so we need to explicitly return an error if it is provided.
-        if flags.intersects(OpenFlags::O_CREAT | OpenFlags::O_EXCL) {
+        // O_TMPFILE is a creation flag as well (it creates an unnamed file in
+        // the directory the path names), and the re-open done by the emulated
+        // backend refuses it. O_TMPFILE contains O_DIRECTORY so it has to be
+        // checked with contains().
+        if flags.intersects(OpenFlags::O_CREAT | OpenFlags::O_EXCL)
+            || flags.contains(OpenFlags::O_TMPFILE)
+        {
             Err(ErrorImpl::InvalidArgument {
                 name: "oflags".into(),
-                description: "open flags to one-shot open cannot contain O_CREAT or O_EXCL".into(),
+                description:
+                    "open flags to one-shot open cannot contain O_CREAT, O_EXCL or O_TMPFILE"
+                        .into(),
             })?
         }
 
